@@ -2,8 +2,10 @@
 """seedkeep.py <Cxx> <n> <caught_by> <note> : copy a confirmed seeded change from its scratch worktree into /verif/seeded/"""
 import json, os, shutil, sys
 pid, n, caught, note = sys.argv[1:5]
-src = f"/tmp/wt_{pid}/SEEDED/{n}"
-dst = f"/verif/seeded/{pid}-{n}"
+pre = os.environ.get("WTPREFIX", "/tmp/wt_")
+off = int(os.environ.get("SEEDOFF", "0"))
+src = f"{pre}{pid}/SEEDED/{n}"
+dst = f"/verif/seeded/{pid}-{int(n) + off}"
 shutil.rmtree(dst, ignore_errors=True)
 os.makedirs(dst)
 for f in os.listdir(src):
